@@ -357,4 +357,37 @@ theorem wellFormed_iff (g : Graph α) (fs : List α) (reqs : List (α × α)) :
     exact ⟨⟨⟨⟨⟨⟨h.rules, h.uniqueIn, h.uniqueAcross⟩, h.acyclic⟩, h.closed⟩, h.reach⟩, h.poolsBound, h.poolsUnique⟩,
       h.defaultsProduced⟩
 
+/-! ### clause 8 -/
+
+theorem installB_iff (fs : List α) (es : List (Edge α)) (iroot : α) (inst : List α) :
+    installB fs es iroot inst = true ↔
+      (∀ f ∈ inst, (∃ e ∈ es, f ∈ e.outs) → Star (Need es) iroot f) ∧
+      (∀ f ∈ inst, (¬ ∃ e ∈ es, f ∈ e.outs) → f ∈ fs) := by
+  simp only [installB, instOk, List.all_eq_true]
+  constructor
+  · intro h
+    refine ⟨fun f hf hp => ?_, fun f hf hnp => ?_⟩
+    · have := h f hf
+      rw [if_pos ((producedBy_iff es f).2 hp)] at this
+      exact (mem_reachSet_iff es iroot f).1 (of_decide_eq_true this)
+    · have := h f hf
+      have hpf : ¬ producedBy es f = true := fun hc => hnp ((producedBy_iff es f).1 hc)
+      rw [if_neg hpf] at this
+      exact of_decide_eq_true this
+  · intro ⟨h1, h2⟩ f hf
+    by_cases hp : producedBy es f = true
+    · rw [if_pos hp]
+      exact decide_eq_true ((mem_reachSet_iff es iroot f).2 (h1 f hf ((producedBy_iff es f).1 hp)))
+    · rw [if_neg hp]
+      exact decide_eq_true (h2 f hf (fun hc => hp ((producedBy_iff es f).2 hc)))
+
+theorem mem_installMissing_iff (fs : List α) (es : List (Edge α)) (iroot : α) (inst : List α) (f : α) :
+    f ∈ installMissing fs es iroot inst ↔ f ∈ inst ∧ instOk fs es (reachSet es iroot) f = false := by
+  simp [installMissing]
+
+theorem wellFormedInst_iff (g : Graph α) (fs : List α) (reqs : List (α × α)) (iroot : α) (inst : List α) :
+    wellFormedInst g fs reqs iroot inst = true ↔ WellFormedInst g fs reqs iroot inst := by
+  simp only [wellFormedInst, Bool.and_eq_true, wellFormed_iff, installB_iff]
+  exact ⟨fun ⟨h, h1, h2⟩ => ⟨h, h1, h2⟩, fun h => ⟨h.base, h.installReach, h.installExist⟩⟩
+
 end MesonModel.Ninja
